@@ -69,8 +69,19 @@ pub struct RDebug {
     The debugger can set a breakpoint at this address if it wants to
     notice shared object mapping changes.  */
     r_brk: ElfAddr,
-    r_state: RState,
+    r_state: libc::c_int, /* An `RState`, kept as an integer as it is read from the target */
     r_ldbase: ElfAddr, /* Base address the linker is loaded at.  */
+}
+
+/// Reads a plain-old-data `T` from the start of `data` (which was copied from the target and
+/// may be shorter than requested, and is not necessarily aligned for `T`).
+fn read_pod<T: Clone>(data: &[u8]) -> Option<T> {
+    if data.len() < std::mem::size_of::<T>() {
+        return None;
+    }
+    // SAFETY: the length was checked, the read is unaligned, callers only use types for which
+    // every bit pattern is valid
+    Some(unsafe { std::ptr::read_unaligned(data.as_ptr().cast::<T>()) })
 }
 
 pub fn write_dso_debug_stream(
@@ -85,7 +96,17 @@ pub fn write_dso_debug_stream(
         .get_program_header_address()
         .ok_or(SectionDsoDebugError::CouldNotFind("AT_PHDR in auxv"))? as usize;
 
-    let ph = PtraceDumper::copy_from_process(blamed_thread, phdr, SIZEOF_PHDR * phnum_max)?;
+    // AT_PHNUM comes from the target (or the caller), don't trust it
+    let phdr_size = SIZEOF_PHDR
+        .checked_mul(phnum_max)
+        .ok_or(SectionDsoDebugError::CouldNotFind("valid AT_PHNUM in auxv"))?;
+    let ph = PtraceDumper::copy_from_process(blamed_thread, phdr, phdr_size)?;
+    if ph.len() < phdr_size {
+        // short read, `from_bytes` below would panic
+        return Err(SectionDsoDebugError::CouldNotFind(
+            "program headers in process memory",
+        ));
+    }
     let program_headers;
     #[cfg(target_pointer_width = "64")]
     {
@@ -108,7 +129,9 @@ pub fn write_dso_debug_stream(
         // Adjust base address with the virtual address of the PT_LOAD segment
         // corresponding to offset 0
         if ph.p_type == goblin::elf::program_header::PT_LOAD && ph.p_offset == 0 {
-            base -= ph.p_vaddr as usize;
+            base = base.checked_sub(ph.p_vaddr as usize).ok_or(
+                SectionDsoDebugError::CouldNotFind("valid PT_LOAD in program headers"),
+            )?;
         }
         if ph.p_type == goblin::elf::program_header::PT_DYNAMIC {
             dyn_addr = ph.p_vaddr;
@@ -121,7 +144,11 @@ pub fn write_dso_debug_stream(
         ));
     }
 
-    dyn_addr += base as ElfAddr;
+    dyn_addr = dyn_addr
+        .checked_add(base as ElfAddr)
+        .ok_or(SectionDsoDebugError::CouldNotFind(
+            "valid PT_DYNAMIC in program headers",
+        ))?;
 
     let dyn_size = std::mem::size_of::<goblin::elf::Dyn>();
     let mut r_debug = 0usize;
@@ -131,17 +158,16 @@ pub fn write_dso_debug_stream(
     // DSOs loaded into the program. If this information is indeed available,
     // dump it to a MD_LINUX_DSO_DEBUG stream.
     loop {
-        let dyn_data = PtraceDumper::copy_from_process(
-            blamed_thread,
-            dyn_addr as usize + dynamic_length,
-            dyn_size,
+        let dyn_entry_addr = (dyn_addr as usize).checked_add(dynamic_length).ok_or(
+            SectionDsoDebugError::CouldNotFind("end of dynamic section"),
         )?;
+        let dyn_data = PtraceDumper::copy_from_process(blamed_thread, dyn_entry_addr, dyn_size)?;
         dynamic_length += dyn_size;
 
         // goblin::elf::Dyn doesn't have padding bytes
-        let (head, body, _tail) = unsafe { dyn_data.align_to::<goblin::elf::Dyn>() };
-        assert!(head.is_empty(), "Data was not aligned");
-        let dyn_struct = &body[0];
+        let dyn_struct = read_pod::<goblin::elf::Dyn>(&dyn_data).ok_or(
+            SectionDsoDebugError::CouldNotFind("complete dynamic section entry"),
+        )?;
 
         let debug_tag = goblin::elf::dynamic::DT_DEBUG;
         if dyn_struct.d_tag == debug_tag {
@@ -162,10 +188,8 @@ pub fn write_dso_debug_stream(
     let debug_entry_data =
         PtraceDumper::copy_from_process(blamed_thread, r_debug, std::mem::size_of::<RDebug>())?;
 
-    // goblin::elf::Dyn doesn't have padding bytes
-    let (head, body, _tail) = unsafe { debug_entry_data.align_to::<RDebug>() };
-    assert!(head.is_empty(), "Data was not aligned");
-    let debug_entry = &body[0];
+    let debug_entry = read_pod::<RDebug>(&debug_entry_data)
+        .ok_or(SectionDsoDebugError::CouldNotFind("complete r_debug"))?;
 
     // Count the number of loaded DSOs
     let mut dso_vec = Vec::new();
@@ -178,12 +202,11 @@ pub fn write_dso_debug_stream(
         )?;
 
         // LinkMap is repr(C) and doesn't have padding bytes, so this should be safe
-        let (head, body, _tail) = unsafe { link_map_data.align_to::<LinkMap>() };
-        assert!(head.is_empty(), "Data was not aligned");
-        let map = &body[0];
+        let map = read_pod::<LinkMap>(&link_map_data)
+            .ok_or(SectionDsoDebugError::CouldNotFind("complete link_map"))?;
 
         curr_map = map.l_next;
-        dso_vec.push(map.clone());
+        dso_vec.push(map);
     }
 
     let mut linkmap_rva = u32::MAX;
